@@ -327,6 +327,8 @@ func genC11Slots(r *Rand) *RunSpec {
 		`<template include="components/Multi.vuego" :items="items"><template #row><p v-text="title"></p><template :k="n"><b>{{ k }}</b></template></template></template>`,
 		`<template include="components/Multi.vuego" :items="items"><template #x><template v-html="html"></template></template><template #row><template v-html="html"></template></template></template>`,
 		`<template include="components/Multi.vuego" :items="items"><template #x><template v-html="html"></template></template></template>`,
+		`<template include="components/Multi.vuego" :items="items"><template #x><li>a</li><!-- trailing comment --></template><template #row><!-- c1 --><b>r</b><!-- c2 --></template></template>`,
+		`<template include="components/Multi.vuego" :items="items"><template #x><!-- only a comment --></template><template #row>text only<!-- c --></template></template>`,
 		`<template include="components/Multi.vuego" :items="items"><template #row><slot name="row"></slot></template><div><slot></slot></div></template>`,
 		`<template include="components/Multi.vuego"><template include="components/Multi.vuego"><slot></slot><b>inner</b></template></template>`,
 	})
